@@ -139,6 +139,24 @@ func (c SliceAssignment) RetError() bool {
 	return false
 }
 
+// loopVars returns the names of the index and element variables of the copy
+// loop for lhs. They must not shadow the variable lhs starts with, which the
+// user may have named i or e.
+func loopVars(lhs string) (idx, elem string) {
+	idx, elem = "i", "e"
+	root := lhs
+	if n := strings.IndexByte(lhs, '.'); n >= 0 {
+		root = lhs[:n]
+	}
+	if root == idx {
+		idx = "idx"
+	}
+	if root == elem {
+		elem = "elem"
+	}
+	return
+}
+
 // SliceLoopAssignment represents a slice assignment with a loop.
 type SliceLoopAssignment struct {
 	LHS string
@@ -157,11 +175,12 @@ func (c SliceLoopAssignment) String() string {
 	sb.WriteString(c.Typ)
 	sb.WriteString(", len(")
 	sb.WriteString(c.RHS)
-	sb.WriteString("))\nfor i, e := range ")
+	idx, elem := loopVars(c.LHS)
+	sb.WriteString("))\nfor " + idx + ", " + elem + " := range ")
 	sb.WriteString(c.RHS)
 	sb.WriteString("{\n")
 	sb.WriteString(c.LHS)
-	sb.WriteString("[i] = e\n}\n}\n")
+	sb.WriteString("[" + idx + "] = " + elem + "\n}\n}\n")
 	return sb.String()
 }
 
@@ -189,13 +208,14 @@ func (c SliceTypecastAssignment) String() string {
 	sb.WriteString(c.Typ)
 	sb.WriteString(", len(")
 	sb.WriteString(c.RHS)
-	sb.WriteString("))\nfor i, e := range ")
+	idx, elem := loopVars(c.LHS)
+	sb.WriteString("))\nfor " + idx + ", " + elem + " := range ")
 	sb.WriteString(c.RHS)
 	sb.WriteString("{\n")
 	sb.WriteString(c.LHS)
-	sb.WriteString("[i] = ")
+	sb.WriteString("[" + idx + "] = ")
 	sb.WriteString(c.Cast)
-	sb.WriteString("(e)\n}\n}\n")
+	sb.WriteString("(" + elem + ")\n}\n}\n")
 	return sb.String()
 }
 
